@@ -52,9 +52,9 @@ fn unhex(h: &str) -> String {
 }
 
 const CORPUS: &[&str] = &["a\0b", "\0", "x--region\n;", "{;do", "{,end", "\u{feff}local a = 1", "--[[ a\0b ]] c",
-    "---@class A\n---@field x number\nlocal A = {}\n", "-- c\nlocal t", "\u{feff}", "\u{feff}#!sh\n", "x = 1 -- c \n\n\n-- d\n", "local x = 'é😀'\r\nreturn x", "#!shebang\nprint(1)", ""];
+    "---@class A\n---@field x number\nlocal A = {}\n", "-- c\nlocal t", "\u{feff}", "\u{feff}#!sh\n", "x = 1 -- c \n\n\n-- d\n", "local t = {[", "{[)", "return { a = 1, [ * 2", "global", "global.x 1", "f(function(1) end).x 2", "local x = 'é😀'\r\nreturn x", "#!shebang\nprint(1)", ""];
 const ATOMS: &[&str] = &["x", " ", "\n", ";", "{", "}", "(", ")", ",", "do", "end", "if", "then", "--region", "--", "---@type T", "'s'", "\0",
-    "1", "=", "local", "function", "é", "\r\n", "[[", "]]", "--[[", "::", ".", ":", "return", "\t", "\u{feff}", "~", "@"];
+    "1", "=", "local", "function", "é", "[", "]", "*", "global", "const", "continue", "..", "+", "\r\n", "[[", "]]", "--[[", "::", ".", ":", "return", "\t", "\u{feff}", "~", "@"];
 
 fn main() {
     std::panic::set_hook(Box::new(|_| {}));
